@@ -70,7 +70,19 @@ def r10_1(ctx):
         ctx.ob("R10.1", f"{k}:length-compared", len(lens) >= 2, f.loc(), f"{len(lens)} length reads feed the comparison before the byte equality", nontrivial=False)
         # the unequal edge skips one value
         fr = f.reachable_from(f_edge)
-        skipn = sorted({tt["callee"].rsplit("::", 1)[-1] for bb, tt in f.calls() if bb in fr and tt["callee"].rsplit("::", 1)[-1] in ("skip_one", "skip_container", "skip_string_unchecked", "skip_string_unchecked2")})
+        SK = ("skip_one", "skip_container", "skip_string_unchecked", "skip_string_unchecked2")
+        skips = set()
+        for bb, tt in f.calls():
+            if bb not in fr:
+                continue
+            nm = tt["callee"].rsplit("::", 1)[-1]
+            if nm in SK:
+                skips.add(nm)
+            elif tt.get("callee") in prog.fns and "Parser" in tt["callee"] and nm not in ADVANCING:
+                # a private helper of the walker: look one level down
+                g = prog.fns[tt["callee"]]
+                skips |= {t2["callee"].rsplit("::", 1)[-1] for b2, t2 in g.calls() if t2["callee"].rsplit("::", 1)[-1] in SK}
+        skipn = sorted(skips)
         want_checked = name.endswith("_checked")
         oks_ = (skipn == ["skip_one"]) if want_checked else ("skip_container" in skipn and "skip_one" not in skipn)
         ctx.ob("R10.1", f"{k}:unequal-edge-skips-the-value", oks_, f.loc(), f"on a different name the value is skipped with {skipn}")
@@ -94,6 +106,21 @@ def r10_2(ctx):
                 if found:
                     stores.append((b, s, leaves))
         ok = len(cands) == 1 and len(stores) == 1
+        if not ok and not stores:
+            # the same count written as `for _ in 0..index`: a Range built from 0 and the index parameter, stepped by next()
+            rng = [(b, i, s) for b, i, s in f.assigns() if s["rv"]["k"] == "agg" and "ops::range::Range" in (s["rv"].get("adt") or "")]
+            nx = [(b, t) for b, t in f.calls() if callee_is(t, "next") and "Range" in " ".join((t.get("rgargs") or []) + (t.get("gargs") or []) + [t["callee"]])]
+            okr = False
+            for b, i, s in rng:
+                lo, hi = s["rv"]["f"][0], s["rv"]["f"][1]
+                hl = op_local(hi)
+                if op_int(lo) == 0 and hl is not None and f.src(hl) == ("param", 2):
+                    okr = True
+            # each step of the range is followed by exactly one ',' dispatch before the next step
+            comma_sw = [b for b, t in f.terms() if t["k"] == "switch" and t.get("dty") == "u8" and any(int(v) == 44 for v, _ in t["targets"])]
+            okr = okr and len(nx) == 1 and len(comma_sw) >= 1 and all(f.dominates(nx[0][0], c) for c in comma_sw)
+            ctx.ob("R10.2", f"{k}:one-countdown-store", okr, f.loc(), "the elements are counted by a range iterator over 0..index, one ',' dispatch per step" if okr else "no countdown of the index parameter found")
+            continue
         ctx.ob("R10.2", f"{k}:one-countdown-store", ok, f.loc(), f"one countdown variable initialised from the index parameter, decremented at {len(stores)} site(s)")
         if not ok:
             continue
